@@ -22,6 +22,92 @@ def unary(t):
             ("result", t, ("leaf", "String")), ("result", ("leaf", "u8"), t)]
 
 
+def named_in(t, acc):
+    if t[0] == "named":
+        acc.add(t[1])
+    for x in t[1:]:
+        for y in (x if isinstance(x, list) else [x]):
+            if isinstance(y, tuple):
+                named_in(y, acc)
+    return acc
+
+
+def inline_deps(t):
+    """inline() of a library type inlines its arguments; an inlined derived type contributes what its own fields
+    refer to by name (Dw<T> { t: T }: the argument and everything below it), not itself"""
+    if t[0] == "named":
+        return named_in(("tuple", list(t[2])), set())
+    acc = set()
+    for x in t[1:]:
+        for y in (x if isinstance(x, list) else [x]):
+            if isinstance(y, tuple):
+                acc |= inline_deps(y)
+    return acc
+
+
+def dep_universe(ctx, rng, viol):
+    """every container around derived types at either argument position and at depth 1..3: dependencies() is
+    exactly the set of derived types occurring in the type expression; model vs real on name/inline/deps"""
+    from corpus import mk_struct, mk_field
+    defs = [mk_struct("Dx", "named", [mk_field("a", ("leaf", "u8"))]), mk_struct("Dy", "named", [mk_field("b", ("leaf", "bool"))]),
+            mk_struct("Dz", "tuple", [mk_field("_0", ("leaf", "String"))]),
+            mk_struct("Dw", "named", [mk_field("t", ("param", 0))], params=[("T", None)])]
+    nx, ny, nz = ("named", "Dx", []), ("named", "Dy", []), ("named", "Dz", [])
+    nw = ("named", "Dw", [ny])
+    base = [nx, nw]
+    d1 = []
+    for t in base:
+        d1 += unary(t)
+    d1 += [("result", nx, ny), ("tuple", [nx, ny, nz]), ("map", ("leaf", "String"), nw, "BTreeMap"), ("named", "Dw", [("vec", nz)])]
+    d2 = []
+    for t in d1:
+        # the other side of every binary constructor holds a leaf: a missing visit cannot be masked
+        d2 += [("result", ("leaf", "u32"), t), ("result", t, ("leaf", "u32")), ("tuple", [("leaf", "u8"), t]), ("option", t), ("vec", t),
+               ("map", ("leaf", "String"), t, "HashMap"), ("array", 3, t), ("wrap", "Box", t), ("named", "Dw", [t])]
+    d3 = []
+    for t in rng.sample(d2, min(len(d2), 60 if ctx.quick else 300)):
+        d3 += [("result", ("leaf", "u32"), t), ("result", t, ("leaf", "bool")), ("vec", ("tuple", [t, ("leaf", "u8")]))]
+    seen, types = set(), []
+    for t in base + d1 + d2 + d3:
+        k = C.rust_ty(t)
+        if k not in seen:
+            seen.add(k)
+            types.append(t)
+    # dependencies() of a library type is what its arguments depend on; what the type CONTRIBUTES is seen where it is
+    # used: as the type of a field of a derived type (by name, and inlined)
+    hosts = []
+    for k, t in enumerate(types):
+        hosts.append(mk_struct("H%d" % k, "named", [mk_field("f", t)]))
+        hosts.append(mk_struct("I%d" % k, "named", [mk_field("f", t, inline=True)]))
+    queries = [("named", h["ident"], []) for h in hosts]
+    res = CR.run_given("c12d", defs + hosts, queries, {})
+    kept = {q[1] for q in res["queries"]}
+    bad = 0
+    try:
+        mism = [m for m in res["mismatches"] if m["field"] in ("name", "inline", "deps", "decl")]
+        for i, q in enumerate(res["queries"]):
+            t = types[int(q[1][1:])]
+            real = sorted(x.split("@")[0] for x in CR.canon_real("deps", res["q"][i]["deps"]).split("|") if x)
+            want = named_in(t, set())
+            if q[1][0] == "I":
+                if res["q"][i]["decl"].startswith("\x00"):
+                    continue     # tuples (and what contains them) cannot be inlined: inline() panics, documented
+                want = inline_deps(t)
+            if real != sorted(want):
+                bad += 1
+                viol.append(dict(kind="property-violated", what="a library type does not contribute exactly its type arguments as dependencies",
+                                 field_type=C.rust_ty(t), host=C.to_rust([h for h in hosts if h["ident"] == q[1]][0]),
+                                 dependencies=real, derived_types_in_the_expression=sorted(want)))
+        if mism and not bad:
+            ctx.fail("model and implementation disagree on library types over derived types (correspondence)", dict(
+                kind="correspondence-broken", broken="Corr/corpus_env_c12d: Model/Gen.v name_of/lib_inline/dependencies_of vs the real impls",
+                first=mism[0], count=len(mism)), no_input=True)
+    finally:
+        CR.corpus_done(res)
+    types = res["queries"]
+    return {"types": len(types), "violations": bad}
+
+
 def type_universe(rng, quick):
     ts = [("leaf", l) for l in LEAVES]
     d1 = []
@@ -199,6 +285,8 @@ def run(ctx):
                 viol.append(dict(kind="property-violated", what="a library type over leaves reports dependencies", type=C.rust_ty(t), deps=res["q"][i]["deps"]))
     finally:
         CR.corpus_done(res)
+    # (C) library containers over DERIVED types: each contributes exactly its type arguments as dependencies
+    dep_stats = dep_universe(ctx, rng, viol)
     # (B) the feature-gated and remaining std rows, on the real impls with all features
     rows, vals = feature_run()
     fcases, fidx = [], []
@@ -229,7 +317,8 @@ def run(ctx):
             count=len(mism) + len(ser_mism)), no_input=True)
     ctx.finish_proof()
     ctx.coverage.update({
-        "evaluations": len(cases) + len(fcases) + 3 * len(types),
+        "evaluations": len(cases) + len(fcases) + 3 * len(types) + dep_stats["types"],
+        "dependencies_over_derived_types": dict(dep_stats, rule="every container (Option, Vec, arrays, Box/RefCell/Mutex, tuples, maps, Result at either side, a derived generic) around derived types at depth 1..3, the other side of every binary constructor holding a leaf: dependencies() = exactly the derived types occurring in the expression; name()/inline()/dependencies() vs Model/Gen.v"),
         "distinct_nontrivial": len(distinct),
         "rule": "(A) %d library type expressions: every leaf of an 11-leaf set under every container (Option, Vec, [T;0], [T;2], [u8;64], [u8;65], Box/RefCell/Mutex, Range, 1-/2-/10-tuples, BTreeMap/HashMap with String/char/u8/i64 keys, Result both ways), sampled depth-2 and depth-3 compositions (Option around containers that hold Options, ...), with values built for None/Some, empty/non-empty: real name()/inline()/dependencies() vs Model/Gen.v byte for byte, Spec/Serde.v vs real serde_json text, and Coq-decided membership of the real JSON in the parsed real name() and inline(); (B) %d rows of std and feature-gated types (NonZero*, PathBuf, IpAddr/SocketAddr, HashSet/BTreeSet, RangeInclusive, Rc/Arc/Cow/Cell/RwLock/Weak/PhantomData, chrono, uuid, url, semver, bytes, indexmap, heapless, smol_str, ordered-float, bigdecimal, bson, serde_json::Number) built with all features: Coq-decided membership of real serde_json output in the reported type; non-trivial = distinct (type, JSON) pairs" % (len(types), len(FEATURE_ROWS)),
         "samples": [dict(type=C.rust_ty(types[k]), reported=res["q"][k]["name"]) for k in (len(types) // 2, len(types) - 1)],
